@@ -115,6 +115,7 @@ func (fv *FuncVerifier) checkGuard(st *State, p *Place, write bool, pos token.Po
 	// freshly allocated objects are not yet shared: accesses need no lock
 	goal = Or(goal, Ge(p.Obj, fv.pre.hwm))
 	fv.addOb(st, "guard", fmt.Sprintf("guard[%s]@%s", field, mode), goal, fmt.Sprintf("%s access to %s requires its lock", map[bool]string{true: "write", false: "read"}[write], field), pos)
+	fv.atomicity(st, field, lockArr, lockObj, p.Obj, write, pos)
 	return &guardSrc{Field: field, Lock: lockArr, Obj: lockObj, Owner: p.Obj}
 }
 
@@ -137,6 +138,34 @@ func (fv *FuncVerifier) guardAccess(st *State, m ssa.Value, write bool, pos toke
 	}
 	goal = Or(goal, Ge(g.Owner, fv.pre.hwm))
 	fv.addOb(st, "guard", fmt.Sprintf("guard[%s contents]@%s", g.Field, mode), goal, fmt.Sprintf("%s of the contents of %s requires its lock", map[bool]string{true: "update", false: "read"}[write], g.Field), pos)
+	fv.atomicity(st, g.Field+" contents", g.Lock, g.Obj, g.Owner, write, pos)
+}
+
+// atomicity (check-then-act): a write to a guarded field/map must happen in the same critical
+// section as this function's most recent read of it; otherwise the decision that led to the
+// write was taken on a state other goroutines may have changed since (lost collision checks).
+func (fv *FuncVerifier) atomicity(st *State, field, lockArr string, lockObj, owner Term, write bool, pos token.Pos) {
+	en := "LKE_" + strings.TrimPrefix(lockArr, "LK_")
+	cur := Select(st.heapArr(en, SArr), lockObj)
+	key := field + "|" + owner.S
+	if !write {
+		n := fv.enc.fresh("section", SInt)
+		st.assume(Eq(n, cur))
+		st.lastRead[key] = n
+		return
+	}
+	if prev, ok := st.lastRead[key]; ok {
+		goal := Or(Eq(prev, I(-1)), Eq(cur, prev), Ge(owner, fv.pre.hwm))
+		fv.addOb(st, "guard", fmt.Sprintf("atomic[%s]", field), goal, "the write to "+field+" must be in the same critical section as the preceding read of it (check-then-act)", pos)
+	}
+}
+
+// guardInvoke: a method is invoked on an interface value loaded from a guarded field.
+func (fv *FuncVerifier) guardInvoke(st *State, g *guardSrc, method string, pos token.Pos) {
+	la := st.heapArr(g.Lock, SArr)
+	state := Select(la, g.Obj)
+	goal := Eq(state, I(1))
+	fv.addOb(st, "guard", fmt.Sprintf("guard[%s.%s()]@x", g.Field, method), goal, "the callback in "+g.Field+" may only be invoked while holding its lock exclusively (never concurrently)", pos)
 }
 
 // markMapDirty: the content version of the updated map changes (maps are otherwise opaque).
@@ -210,6 +239,12 @@ func (env *Env) unchanged(x *SCall) Value {
 	}
 	var cs []Term
 	for _, tf := range fields {
+		if strings.HasPrefix(tf, "ghost:") {
+			cur := env.st.heapArr("GH_"+tf[6:], SInt)
+			old := env.old.heapArr("GH_"+tf[6:], SInt)
+			cs = append(cs, Eq(cur, old))
+			continue
+		}
 		i := strings.LastIndex(tf, ".")
 		t := env.resolveType(tf[:i])
 		st, ok := t.Underlying().(*types.Struct)
@@ -252,15 +287,26 @@ func (env *Env) unchanged(x *SCall) Value {
 
 func lockNative(doc string, requireState []int64, newState int64, what string) *native {
 	return &native{
-		doc: doc, pure: false, prefixes: []string{"LK_"},
+		doc: doc, pure: false, prefixes: []string{"LK_", "LKE_"},
 		apply: func(fv *FuncVerifier, st *State, cc *ssa.CallCommon, args []Value, pos token.Pos) Value {
-			if len(args) == 0 || args[0].Place == nil {
-				// lock reached through an unknown pointer: identity unknown; nothing tracked
+			if len(args) == 0 {
 				return Value{}
 			}
-			name, obj, ok := lockArrayOfPlace(st.resolve(args[0].Place))
-			if !ok {
-				return Value{}
+			var name string
+			var obj Term
+			if args[0].Place == nil {
+				// a plain *Mutex reference (sub-object or separately allocated mutex)
+				pt, ok := args[0].Typ.Underlying().(*types.Pointer)
+				if !ok {
+					return Value{}
+				}
+				name, obj = "LK_H_"+typeKey(pt.Elem()), args[0].L[0]
+			} else {
+				var ok bool
+				name, obj, ok = lockArrayOfPlace(st.resolve(args[0].Place))
+				if !ok {
+					return Value{}
+				}
 			}
 			la := st.heapArr(name, SArr)
 			cur := Select(la, obj)
@@ -272,8 +318,18 @@ func lockNative(doc string, requireState []int64, newState int64, what string) *
 				g := Or(ds...)
 				fv.addOb(st, "lock", fmt.Sprintf("lock[%s %s]", what, strings.TrimPrefix(name, "LK_H_")), g, what+" needs the lock in the right state", pos)
 				st.assume(g)
+			} else {
+				// acquiring: if this goroutine already held the lock the call would never return
+				// (sync mutexes are not reentrant), so on return it was not held (partial correctness)
+				st.assume(Eq(cur, I(0)))
 			}
 			st.setHeap(name, Store(la, obj, I(newState)))
+			if newState == 0 {
+				// leaving a critical section: bump the lock's section counter (atomicity checks)
+				en := "LKE_" + strings.TrimPrefix(name, "LK_")
+				ea := st.heapArr(en, SArr)
+				st.setHeap(en, Store(ea, obj, Add(Select(ea, obj), I(1))))
+			}
 			return Value{}
 		},
 	}
